@@ -586,7 +586,7 @@ func ParseStorageConfigs(cfg []byte) ([]StorageConfiguration, error) {
 		}
 		for _, c := range configs {
 			if c.Path == s.Path || c.Id == s.Id {
-				panic(fmt.Sprintf("Two storages share the same path or id. %v, %v. Can't continue.", s.Path, s.Id))
+				return nil, fmt.Errorf("two storages share the same path or id: %v, %v", s.Path, s.Id)
 			}
 		}
 		var v datasize.ByteSize
